@@ -357,3 +357,8 @@ pub fn exec(p: &Packet, mode: Mode, cfg: &WriterCfg) -> Outcome {
         }
     }
 }
+
+/// Developer aid: parse arbitrary bytes with panics captured.
+pub fn guarded_parse(bytes: &[u8]) -> (Res, Option<()>) {
+    guarded(|| Packet::parse(bytes).map(|_| ()))
+}
